@@ -12,7 +12,7 @@
 (* m-mers and W-mers are digit sequences (Nt); the `no run open` value of  *)
 (* m_active (u64::MAX in the code) is NoRun.                               *)
 (***************************************************************************)
-EXTENDS Nt
+EXTENDS MinOps
 CONSTANTS WMSet,    \* set of <<w, m>> pairs explored, 1 <= m <= w
           MaxLen
 VARIABLES W, M,     \* window and minimiser size of this iterator (fixed at construction)
@@ -140,23 +140,10 @@ Next == (\E c \in 0..4 : Step(c)) \/ End
 Spec == Init /\ [][Next]_vars
 
 -----------------------------------------------------------------------------
-\* Declarative side (C09): maximal runs of consecutive clean W-windows with
+\* Declarative side (C09): see MinOps - maximal runs of consecutive clean W-windows with
 \* the same minimiser, as <<value, start, end>> with 0-based [start, end).
-Mmer(s, j) == Canon(SubSeq(s, j, j + M - 1))
-WinMin(s, i) == LET vals == {Mmer(s, j) : j \in i..(i + W - M)}
-                IN CHOOSE v \in vals : \A u \in vals : LexLeq(v, u)
-Runs(s) ==
-  LET n == Len(s) - W + 1      \* number of window starts
-      acc[i \in 0..(IF n > 0 THEN n ELSE 0)] ==
-        IF i = 0 THEN <<>>
-        ELSE IF ~CleanWin(s, i, W) THEN acc[i-1]
-        ELSE LET v == WinMin(s, i)
-                 a == acc[i-1]
-                 k == Len(a)
-             IN IF k > 0 /\ a[k][1] = v /\ a[k][3] = i + W - 2
-                THEN [a EXCEPT ![k] = <<v, a[k][2], i + W - 1>>]
-                ELSE Append(a, <<v, i - 1, i + W - 1>>)
-  IN acc[IF n > 0 THEN n ELSE 0]
+Mmer(s, j) == MmerAt(s, j, M)
+Runs(s) == RunsWM(s, W, M)
 
 Proj3(o) == [i \in 1..Len(o) |-> <<o[i][1], o[i][2], o[i][3]>>]
 OpenRun == IF active # NoRun THEN <<<<active, wstart, pos>>>> ELSE <<>>
